@@ -72,7 +72,7 @@ inline const pbt::Op *find_schedule(const pbt::Case &c) {
 
 inline void fatal_cb(int kind, const char *msg) {
     if (kind == 1) pbt::exit_case_now(true, std::string("inconclusive: ") + msg, "inconclusive");
-    pbt::exit_case_now(false, std::string(kind == 0 ? "DEADLOCK: " : "scheduler misuse: ") + msg);
+    pbt::exit_case_now(false, std::string(kind == 0 ? "DEADLOCK: " : kind == 3 ? "HANG: " : "scheduler misuse: ") + msg);
 }
 inline void install() { ds::on_fatal = fatal_cb; }
 
